@@ -1,11 +1,14 @@
 import Replicon.Proofs.Client
+import Replicon.Proofs.Fresh
 /-
 C09 — Disconnects, reconnects and server restarts start from a clean slate.
 
 Model: `Model/Client.lean` (`reset`, run condition `client_just_disconnected`),
 `Model/Server.lean` (`disconnect`, `stop` / `reset`).  "Crash points" are the session cuts: the
-library keeps no state outside memory.  The new session's convergence is C01/C07 on the clean
-state; that neither side panics is shown on the implementation by the trace validation
+library keeps no state outside memory.  The new session's first round is a theorem across both
+models (`C09_new_session_round_trip`, from `Proofs/Fresh.lean`): the server's message for a
+client it has no state for, applied by a client whose previous session was reset, gives the
+client exactly the server's view and leaves what it held before alone.  That neither side panics is shown on the implementation by the trace validation
 (a disconnect or stop at arbitrary points of generated histories).  Known finding F13 (client
 panic after a disconnect under the default protocol check) is outside these theorems.
 -/
@@ -39,5 +42,31 @@ theorem C09_fresh_session (s : Server) (c : Nat) (a : Bool) :
     aget (s.connect c a).clients c = some { authorized := a } := by
   unfold Server.connect
   exact aget_aset_same _ _ _
+
+/-- A new session converges in one perfect round, whatever the old session left behind: the
+client ran the frame that saw the disconnect (`c` is any client state, `us`/`ms` whatever was
+still delivered), reconnects, and applies the update message the server sends a client it has
+no state for (`Fresh.freshCli` is what `connect` / `authorize` create).  Then the client holds
+one new entity per replicated server entity — mapped, marked, confirmed at the server's tick,
+with exactly the server's replicated components and values (`Fresh.Good`) — and nothing it held
+before was touched.  Hypotheses: blacklist policy (nothing hidden), nothing buffered on the
+server, distinct entity ids, no entity-valued components (component id 4 of the harness), ids
+from `c.next` on unused (the allocator's invariant). -/
+theorem C09_new_session_round_trip (s : Server) (thisRun : Nat) (c : Client) (us : List Update) (ms : List Mutate)
+    (h1 : c.lastNotDisconnected = true) (h2 : c.connected = false)
+    (halloc : ∀ j, c.next ≤ j → aget c.world j = none) (hec : c.entityComps = [4])
+    (hw : s.white = false) (hd : s.despawnBuf = []) (hr : s.removalBuf = []) (hne : Fresh.viewMsgs s ≠ [])
+    (hkeys : (s.world.map (·.1)).Nodup) (hplain : ∀ m ∈ Fresh.viewMsgs s, ∀ kv ∈ m.comps, kv.1 ≠ 4) :
+    ∃ u, (runClient s thisRun Fresh.freshCli).2.update = some u ∧
+      Fresh.Good s.tick { frame c us ms with connected := true }
+        (applyUpdate { frame c us ms with connected := true } u) (Fresh.viewMsgs s) := by
+  obtain ⟨u, hu, _, g⟩ := Fresh.fresh_round_trip s thisRun _
+    (Fresh.session_start_after_reset c us ms h1 h2 halloc hec) hw hd hr hne hkeys hplain
+  exact ⟨u, hu, g⟩
+
+/-- what `connect` and `authorize` create on the server is that fresh state -/
+theorem C09_server_state_is_fresh (s : Server) (c : Nat) :
+    aget (s.connect c true).clients c = some Fresh.freshCli :=
+  aget_aset_same _ _ _
 
 end Replicon.C09
